@@ -374,14 +374,14 @@ pub fn run_check(prop: &str, tier: &str, seed: u64, workers: usize, backend: &st
             for slot in &inflight {
                 let g = slot.lock().unwrap();
                 if let Some((t, sc)) = &*g {
-                    if t.elapsed().as_secs() >= 60 {
+                    if t.elapsed().as_secs() >= 300 {
                         let dir = vdir.join("replays");
                         let _ = std::fs::create_dir_all(&dir);
                         let path = dir.join(format!("{}-hang-{}.json", prop, sc.seed));
                         let mut sc = sc.clone();
                         sc.expect_signature = Some(format!("{}|wall-clock|hang:wall-clock|run", prop));
                         let _ = std::fs::write(&path, serde_json::to_string_pretty(&sc).unwrap());
-                        println!("run did not finish within 60 s of wall-clock time (type {} world {:?} seed {})", sc.type_name, sc.world, sc.seed);
+                        println!("run did not finish within 300 s of wall-clock time (type {} world {:?} seed {})", sc.type_name, sc.world, sc.seed);
                         println!("VIOLATION property={} replay={}", prop, path.display());
                         std::process::exit(1);
                     }
